@@ -466,6 +466,8 @@ package stick
 //@   loop 1 invariant frame: xinv(s) && s.scope == old(s.scope) && len(s.scope.scopes) == old(len(s.scope.scopes)) && (forall i trig :: 0 <= i && i < len(s.scope.scopes) ==> s.scope.scopes[i] == old(s.scope.scopes[i])) && s.name == old(s.name) && s.current == old(s.current) && s.env == old(s.env) && len(s.blocks) >= old(len(s.blocks)) && (forall p trig :: allocated(p) && p != old(s.scope) ==> fld("stick.scopeStack", "scopes", p) == old(fld("stick.scopeStack", "scopes", p))) && s.out == old(s.out) && (forall w trig :: allocated(w) ==> rbuflen(w) == old(rbuflen(w)) && rbufdata(w) == old(rbufdata(w))) && (wfail() ==> old(wfail())) && openfiles() == old(openfiles()) && (wafterfail() ==> old(wafterfail()) || old(wfail()))
 
 //@ func stick.(*state).walkFromNode
+// C11: each imported name must exist in the loaded template; it is registered under its alias
+//@   at "errors.New(\"undefined macro \" + name)" missing: !in(macros, name)
 //@   propagates
 //@   ensures wfail: wfail() && !old(wfail()) ==> err != nil
 //@   ensures order: wafterfail() ==> old(wafterfail()) || old(wfail())
@@ -485,6 +487,11 @@ package stick
 //@   loop 1 invariant frame: xinv(s) && s.scope == old(s.scope) && len(s.scope.scopes) == old(len(s.scope.scopes)) && (forall i trig :: 0 <= i && i < len(s.scope.scopes) ==> s.scope.scopes[i] == old(s.scope.scopes[i])) && s.name == old(s.name) && s.current == old(s.current) && s.env == old(s.env) && len(s.blocks) >= old(len(s.blocks)) && (forall p trig :: allocated(p) && p != old(s.scope) ==> fld("stick.scopeStack", "scopes", p) == old(fld("stick.scopeStack", "scopes", p))) && s.out == old(s.out) && (forall w trig :: allocated(w) ==> rbuflen(w) == old(rbuflen(w)) && rbufdata(w) == old(rbufdata(w))) && (wfail() ==> old(wfail())) && openfiles() == old(openfiles()) && (wafterfail() ==> old(wafterfail()) || old(wfail()))
 
 //@ func stick.(*state).evalExpr
+// C11: _self.m(..) and alias.m(..) reach callMacro with one argument value per argument expression, in order; an
+// unknown macro of an imported set is an error
+//@   at "s.callMacro(macroDef{macro}, args...)" self: len(args) == len(exargs) && macro != nil
+//@   at "s.callMacro(macro, args...)" imported: len(args) == len(exargs) && istype(c, "macroSet")
+//@   at "errors.New(\"undefined macro: \" + CoerceString(k))" unknown: istype(c, "macroSet")
 // (the lookup error of GetAttr is discarded by design: missing attributes render empty, C16)
 //@   propagates except GetAttr(, errors.New("undefinedvariable
 //@   ensures wfail: wfail() && !old(wfail()) ==> err != nil
@@ -510,6 +517,8 @@ package stick
 //@   loop 5 invariant frame: xinv(s) && s.scope == old(s.scope) && len(s.scope.scopes) == old(len(s.scope.scopes)) && (forall i trig :: 0 <= i && i < len(s.scope.scopes) ==> s.scope.scopes[i] == old(s.scope.scopes[i])) && s.name == old(s.name) && s.current == old(s.current) && s.env == old(s.env) && len(s.blocks) >= old(len(s.blocks)) && (forall p trig :: allocated(p) && p != old(s.scope) ==> fld("stick.scopeStack", "scopes", p) == old(fld("stick.scopeStack", "scopes", p))) && s.out == old(s.out) && (forall w trig :: allocated(w) ==> rbuflen(w) == old(rbuflen(w)) && rbufdata(w) == old(rbufdata(w))) && (wfail() ==> old(wfail())) && openfiles() == old(openfiles()) && (wafterfail() ==> old(wafterfail()) || old(wfail()))
 
 //@ func stick.(*state).evalFunction
+// C11: a from-imported macro reaches callMacro the same way
+//@   at "s.callMacro(macroDef{macro}, args...)" from: len(args) == len(eargs) && macro != nil
 //@   propagates
 //@   ensures wfail: wfail() && !old(wfail()) ==> err != nil
 //@   ensures order: wafterfail() ==> old(wafterfail()) || old(wfail())
@@ -553,6 +562,12 @@ package stick
 
 //@ func stick.(*state).callMacro
 //@   propagates
+// C11: when the body starts, every parameter (the last one of that name, if a name is repeated) is bound in the fresh
+// scope to the argument in the same position, or to null when the call supplies fewer arguments; surplus arguments
+// bind nothing; the body runs under the name of the template that defines the macro
+//@   at "s.walk(macro.Body)" bound: fresh(top(s.scope)) && (forall i trig :: 0 <= i && i < len(macro.Args) && (forall j :: i < j && j < len(macro.Args) ==> macro.Args[j] != macro.Args[i]) ==> in(top(s.scope), macro.Args[i]) && top(s.scope)[macro.Args[i]] == ite(i < len(args), args[i], nil))
+//@   at "s.walk(macro.Body)" origin: macro.Origin != "" ==> s.name == macro.Origin
+//@   loop 1 invariant bound: fresh(top(s.scope)) && rangeindex >= -1 && rangeindex < len(macro.Args) && (forall i trig :: 0 <= i && i <= rangeindex && (forall j :: i < j && j <= rangeindex ==> macro.Args[j] != macro.Args[i]) ==> in(top(s.scope), macro.Args[i]) && top(s.scope)[macro.Args[i]] == ite(i < len(args), args[i], nil))
 // C07/C11: parameters are bound with setLocal in the scope pushed by this call
 //@   at "s.scope.setLocal(name, nil)" own: fresh(top(s.scope))
 //@   at "s.scope.setLocal(name, args[i])" own: fresh(top(s.scope))
